@@ -322,3 +322,147 @@ pub fn c13_commands(cx: &mut Ctx) {
         }
     }
 }
+
+/// C06 — a sharding key maps to PostgreSQL's hash partition, by every routing path.
+///
+/// Per client, in program order: the reference selection (independent transcription of
+/// PostgreSQL's hash partitioning / the SHA-1 rule) is updated by every routing command and
+/// every key-carrying statement; every tagged statement that was executed must have been
+/// executed on a server whose shard label equals the selection in force. A statement refused
+/// because its shard is unreachable is fine; executing it elsewhere is not.
+pub fn c06_shards(cx: &mut Ctx) {
+    let h = cx.h;
+    let nshards = cx.param_u64("nshards", 1) as usize;
+    let function = cx.param_str("sharding_function");
+    let default_shard = cx.param_str("default_shard");
+    let plan = cx.spec.params.get("c06_plan").cloned().unwrap_or_default();
+    let shard_of_host = |host: &str| -> Option<usize> { cx.spec.hosts.iter().find(|x| x.addr == host).map(|x| x.shard as usize) };
+    for c in h.clients.values() {
+        if c.database == "pgcat" || c.auth_result != "ok" {
+            continue;
+        }
+        // None = nothing selected yet (default_shard applies); Some(None) = unknown
+        let mut sel: Option<Option<usize>> = None;
+        for s in &c.steps {
+            if s.op != "send" {
+                continue;
+            }
+            if s.tags.is_empty() {
+                // a routing command?
+                let q = match query_text_of(s) {
+                    Some(q) => q,
+                    None => continue,
+                };
+                let answered_ok = s.msgs.iter().map(|m| m.ty).collect::<Vec<u8>>() == vec![b'C', b'Z'];
+                let answered_err = s.msgs.iter().map(|m| m.ty).collect::<Vec<u8>>() == vec![b'E', b'Z'];
+                match refmodel::recognise(&q) {
+                    Recognised::Command(Cmd::SetShardingKey(v)) => {
+                        if let Ok(k) = v.parse::<i64>() {
+                            sel = Some(Some(refmodel::partition(&function, k, nshards)));
+                            cx.probe("c06_set_sharding_key");
+                        }
+                        if !answered_ok {
+                            sel = Some(None);
+                        }
+                    }
+                    Recognised::Command(Cmd::SetShard(v)) => match v.parse::<usize>() {
+                        Ok(n) if n < nshards => {
+                            sel = Some(Some(n));
+                            cx.probe("c06_set_shard");
+                            if !answered_ok {
+                                sel = Some(None);
+                            }
+                        }
+                        Ok(n) => {
+                            cx.probe("c06_set_shard_out_of_range");
+                            if !answered_err {
+                                cx.v("C06", "out_of_range_accepted", "C06/set_shard_out_of_range_not_refused", s.done_seq, format!("client {} step {}: SET SHARD TO {} with {} shards was answered {:?}", c.id, s.idx, n, nshards, String::from_utf8_lossy(&s.msgs.iter().map(|m| m.ty).collect::<Vec<u8>>())));
+                            }
+                            // the selection in force stays (checked by the statements that follow)
+                        }
+                        Err(_) => sel = Some(None),
+                    },
+                    _ => {}
+                }
+                continue;
+            }
+            let tag = s.tags[0];
+            let entry = match plan.get(tag.to_string()) {
+                Some(e) => e.clone(),
+                None => continue,
+            };
+            let path = entry.get("path").and_then(|v| v.as_str()).unwrap_or("").to_string();
+            if let Some(k) = entry.get("key").and_then(|v| v.as_i64()) {
+                sel = Some(Some(refmodel::partition(&function, k, nshards)));
+            } else if let Some(n) = entry.get("shard").and_then(|v| v.as_u64()) {
+                sel = Some(Some(n as usize));
+            }
+            // where did it run?
+            let execs: Vec<usize> = cx.ix.exec_by_tag.get(&tag).cloned().unwrap_or_default();
+            if execs.is_empty() {
+                cx.probe("c06_statement_not_executed");
+                let dead = cx.spec.params.get("dead_shard").and_then(|v| v.as_i64()).unwrap_or(-1);
+                let target_reachable = match sel {
+                    Some(Some(n)) => dead != n as i64,
+                    _ => dead < 0,
+                };
+                if target_reachable {
+                    let errs: Vec<String> = s.msgs.iter().filter(|m| m.ty == b'E').map(|m| proto::error_fields(&m.body).get(&'M').cloned().unwrap_or_default()).collect();
+                    cx.v("C06", "not_routed", &format!("C06/not_executed/{}", path_class(&path)), s.done_seq, format!("client {} step {} ({}; key {:?}): the statement was executed nowhere although every server of its shard is up; step ended {:?}, errors {:?}", c.id, s.idx, path, entry.get("key").and_then(|v| v.as_i64()), s.outcome, errs));
+                }
+                if !matches!(s.outcome, StepOutcome::Ready(_)) {
+                    // the client lost its connection with this statement: nothing more to follow
+                    break;
+                }
+                // what the pooler selected is unknown from here on
+                sel = Some(None);
+                continue;
+            }
+            let want: Vec<usize> = match sel {
+                Some(Some(n)) => vec![n],
+                Some(None) => (0..nshards).collect(),
+                None => match default_shard.strip_prefix("shard_").and_then(|x| x.parse::<usize>().ok()) {
+                    Some(d) => vec![d],
+                    None => (0..nshards).collect(),
+                },
+            };
+            for ei in execs {
+                let e = &h.stmts[ei];
+                let host = &h.backend_conns[e.conn].host;
+                if cx.spec.hosts.iter().any(|x| &x.addr == host && x.role == "mirror") {
+                    continue;
+                }
+                let got = match shard_of_host(host) {
+                    Some(g) => g,
+                    None => continue,
+                };
+                cx.probe("c06_statement_checked");
+                cx.probe(&format!("c06_path_{}", path));
+                if nshards > 1 && want.len() == 1 {
+                    cx.probe("c06_decided_among_several_shards");
+                }
+                if !want.contains(&got) {
+                    // follow what happened, so that one misroute is reported once
+                    sel = Some(None);
+                    let k = entry.get("key").and_then(|v| v.as_i64());
+                    let shape = entry.get("shape").and_then(|v| v.as_u64()).map(|x| format!("/shape{}", x)).unwrap_or_default();
+                    cx.v("C06", "misrouted", &format!("C06/misrouted/{}{}", path_class(&path), shape), e.rec.seq, format!("client {} step {} ({}; key {:?}; {} shards, {}): executed on {} (shard {}), the selection in force is shard {:?}; statement: {}", c.id, s.idx, path, k, nshards, function, host, got, want, e.rec.sql.chars().take(120).collect::<String>()));
+                }
+            }
+            if !matches!(s.outcome, StepOutcome::Ready(_)) {
+                break;
+            }
+        }
+    }
+}
+
+/// Cause class of a routing path: parameter width and sign do not name different causes.
+fn path_class(path: &str) -> String {
+    let p = path.replace("_negative", "");
+    for w in ["bind_text", "bind_binary2", "bind_binary4", "bind_binary8"] {
+        if let Some(rest) = p.strip_prefix(w) {
+            return format!("bind{}", rest);
+        }
+    }
+    p
+}
